@@ -99,7 +99,8 @@ D_ZERO = [{}, {"days": 0}, {"days": 1, "hours": -24}]
 D_MIXED = [{"days": 2, "hours": 5, "minutes": 7, "seconds": 11}, {"days": 1, "hours": -30},
            {"days": -1, "hours": 23, "minutes": 59, "seconds": 60}, {"hours": -1, "minutes": 61, "seconds": -61}]
 D_FRAC_DYADIC = [{"seconds": 0.5}, {"hours": 0.25}, {"minutes": 1.5}, {"seconds": -0.5}]
-D_FRAC_GENERAL = [{"seconds": 0.1}, {"minutes": -0.3}]
+D_FRAC_GENERAL = [{"seconds": 0.1}, {"minutes": -0.3}, {"seconds": 0.9999997}, {"seconds": -0.0000003},
+                  {"seconds": 59.9999996}, {"minutes": 0.99999999}]
 D_NEAR = (_pm("seconds", [1, 59, 60, 61, 3599, 86399, 86400]) +
           _pm("minutes", [1, 59, 60, 1439, 1441]) +
           _pm("hours", [1, 23, 24, 25]) +
@@ -107,7 +108,7 @@ D_NEAR = (_pm("seconds", [1, 59, 60, 61, 3599, 86399, 86400]) +
           _pm("weeks", [1, 52, 53]) + D_MIXED + D_FRAC_DYADIC + D_FRAC_GENERAL + D_ZERO)
 D_CORE = (_pm("seconds", [1, 61, 86400]) + _pm("minutes", [1, 1441]) + _pm("hours", [1, 25]) +
           _pm("days", [1, 31, 366]) + _pm("weeks", [1, 53]) + D_MIXED[:2] + D_FRAC_DYADIC[:2] +
-          D_FRAC_GENERAL[:1] + D_ZERO[:1] + D_ZERO[2:])
+          D_FRAC_GENERAL[:1] + D_FRAC_GENERAL[2:4] + D_ZERO[:1] + D_ZERO[2:])
 D_FAR = _pm("days", [36524, 36525, 146097])
 
 
